@@ -74,6 +74,15 @@ def gen(ttxt: str, rng, classes=None, depth=0):
         inner = t[t.index("[") + 1:-1]
         n = rng.choice([0, 0, 1, 1, 2, 3, 5, 17])
         return [gen(inner, rng, classes, depth + 1) for _ in range(n)]
+    if t.startswith(("dict[", "Dict[")):
+        kt, vt = split_args(t[t.index("[") + 1:-1])
+        n = rng.choice([0, 1, 2, 3])
+        return {"$dict": [[gen(kt, rng, classes, depth + 1), gen(vt, rng, classes, depth + 1)] for _ in range(n)]}
+    if t.startswith(("set[", "Set[")):
+        inner = t[t.index("[") + 1:-1]
+        return {"$set": [gen(inner, rng, classes, depth + 1) for _ in range(rng.choice([0, 1, 2, 3]))]}
+    if t in ("any", "Any"):
+        return {"$opaque": "obj%d" % rng.randrange(4)}
     if t.startswith("tuple["):
         return {"$tuple": [gen(x, rng, classes, depth + 1) for x in split_args(t[6:-1])]}
     if classes and t in classes and depth < 3:
